@@ -888,7 +888,8 @@ func TestC05(t *testing.T) {
 	switch run.p.Mode {
 	case "faults":
 		c05RunFaults(run, mon)
-	case "isolation":
+	case "isolation", "isolation-race":
+		// "isolation-race": the same histories in the -race binary (fewer of them)
 		c05RunIsolation(run, mon)
 	case "crash":
 		c05RunCrash(run, mon)
